@@ -85,6 +85,10 @@ pub enum G {
     ExtWrap(Box<G>),
     /// `(Skip n)`: `custom(|inp| { n times inp.skip(); Ok(()) })`
     Skip(usize),
+    /// `(Lazy a)`: `a.lazy()`
+    Lazy(Box<G>),
+    /// `(WithState k a)`: `a.with_state(HState { h: k })`
+    WithState(u64, Box<G>),
     /// `(NestedDelims s e ((s1 e1) ..))`: `recovery::nested_delimiters`
     NestedDelims(u32, u32, Vec<(u32, u32)>),
 }
@@ -696,6 +700,8 @@ pub fn parse_g(tk: Tk, s: &Sexp) -> R<G> {
         ("NestedIn", [a]) => G::NestedIn(bg(a)?),
         ("ExtWrap", [a]) => G::ExtWrap(bg(a)?),
         ("Skip", [n]) => G::Skip(nat(n)?),
+        ("Lazy", [a]) => G::Lazy(bg(a)?),
+        ("WithState", [k, a]) => G::WithState(k.nat()? as u64, bg(a)?),
         ("NestedDelims", [s, e, others]) => {
             let others = others
                 .list()?
@@ -767,7 +773,9 @@ impl G {
             | G::RecDecl(a)
             | G::Boxed(a)
             | G::NestedIn(a)
-            | G::ExtWrap(a) => a.has_fnew(),
+            | G::ExtWrap(a)
+            | G::Lazy(a)
+            | G::WithState(_, a) => a.has_fnew(),
             G::Then(a, b)
             | G::IgnoreThen(a, b)
             | G::ThenIgnore(a, b)
